@@ -98,7 +98,7 @@ PROPS = {
         "non-trivial = a token was honoured and a revocation or logout took effect; distinct = distinct step history",
         {"runs": 40, "wall": 90}, {"runs": 8000, "wall": 1200},
         {"quick": {"_runs": 400, "userinfo-200": 500, "introspect-active": 150, "introspect-inactive": 500, "revocation-effective": 300, "garbage-revocation": 100, "foreign-revocation-attempt": 50, "logout": 300, "race-groups": 1500, "race-use-ok": 600, "race-kill-ok": 1500, "race-use-overlapping-kill": 300,
-                   "race-linearizability-checked": 1200, "subject-with-colon": 100, "exchange-success": 150, "exchange-with-actor-success": 50},
+                   "race-linearizability-checked": 1200, "subject-with-colon": 100, "exchange-success": 150, "exchange-with-actor-success": 50, "exchange-id-token-subject-success": 20},
          "thorough": {"_runs": 20000}},
         "Seeded exploration; userinfo 200 / active:true imply the token is live in the reference model (and the caller authenticated and in the audience); inactive answers are exactly {active:false}; owner revocation and logout kill the tokens; foreign revocation is refused; garbage revocation answers 200.",
         "DESIGN.md section 4 C08"),
@@ -108,7 +108,7 @@ PROPS = {
         "one evaluation = one seeded world (router, token types, policy) running 40-80 actor steps: obtain tokens, exchange (subject kind x actor kind x declared type x requested type x scopes x caller x presentation), "
         "revoke, logout, clock jumps, policy changes (default type, veto, impersonation, dropped scopes). non-trivial = at least one exchange succeeded; distinct = distinct step history",
         {"runs": 40, "wall": 90}, {"runs": 8000, "wall": 1200},
-        {"quick": {"_runs": 400, "exchange-success": 300, "veto-at-ValidateTokenExchangeRequest": 20, "veto-at-CreateTokenExchangeRequest": 15, "veto-at-GetPrivateClaimsFromTokenExchangeRequest": 5, "veto-at-SetUserinfoFromTokenExchangeRequest": 3}, "thorough": {"_runs": 20000}},
+        {"quick": {"_runs": 400, "exchange-success": 300, "veto-at-ValidateTokenExchangeRequest": 20, "veto-at-CreateTokenExchangeRequest": 15, "veto-at-GetPrivateClaimsFromTokenExchangeRequest": 5, "veto-at-SetUserinfoFromTokenExchangeRequest": 3, "act-chain-decided": 10}, "thorough": {"_runs": 20000}},
         "Seeded exploration; every 2xx exchange implies an authenticated, registered client, live subject/actor tokens of the declared type, no veto, a non-empty token of the declared kind that is live at the provider and carries the subject, scopes and actor the journal shows the policy decided.",
         "DESIGN.md section 4 C15"),
     "C09": dict(flow(
@@ -119,7 +119,7 @@ PROPS = {
         "One world in four is a catalogue world; the other three are fault sweeps of one (flow, router) pair each. distinct non-trivial = distinct (router, case) executed plus distinct world configurations",
         {"runs": 6, "wall": 120}, {"runs": 600, "wall": 1500},
         {"quick": {"_runs": 96, "server-cases": 60000, "client-cases": 30000, "decoder-cases": 30000, "server-error-answers": 30000, "client-errors-returned": 20000, "keyset-child-cases": 1500,
-                   "fault-sweep-worlds": 60, "fault-sweep-cases": 500, "clock-advanced-for-aged-tokens": 40},
+                   "fault-sweep-worlds": 60, "fault-sweep-cases": 500, "clock-advanced-for-aged-tokens": 40, "slow-peer-cases": 1000},
          "thorough": {"_runs": 6000, "fault-sweep-cases": 100000}},
         "Fault enumeration over a stated catalogue (complete per world) plus seeded mutation: no handler, helper, verifier or decoder may panic; a recorder counts response headers and the storage journal shows whether a handler went on after answering with an error.",
         "DESIGN.md section 4 C09", level="fault_enumeration",
@@ -185,7 +185,7 @@ PROPS = {
         "one evaluation = one seeded world (router, RP response mode, session state on/off) running 30-60 steps: raw authorization (success or error) with generated state/nonce x response type x mode x redirect URI shape, or a complete login through the real relying party. "
         "The values are seeded generation over Unicode and ASCII punctuation; only the pipeline is simulation. non-trivial = responses were decoded and the RP pipeline ran",
         {"runs": 40, "wall": 90}, {"runs": 8000, "wall": 1200},
-        {"quick": {"_runs": 400, "responses-decoded": 8000, "mode-form_post": 1500, "mode-fragment": 3000, "mode-query": 3000, "pipeline-completed": 3000, "storage-error-responses": 300, "storage-error-responses-without-state": 30, "sentinel": 500, "response-write-fails": 500}, "thorough": {"_runs": 20000}},
+        {"quick": {"_runs": 400, "responses-decoded": 8000, "mode-form_post": 1500, "mode-fragment": 3000, "mode-query": 3000, "pipeline-completed": 3000, "storage-error-responses": 300, "storage-error-responses-without-state": 30, "sentinel": 300, "response-write-fails": 500, "storage-error-text-arrived-intact": 80}, "thorough": {"_runs": 20000}},
         "Seeded exploration; what the user agent decodes equals what the provider produced and the client sent (code, state, session_state, tokens, error, description), pre-existing query parameters survive, the form has exactly the expected DOM, and fault-free logins complete at the relying party.",
         "DESIGN.md section 4 C11"),
     "C19": flow(
@@ -215,7 +215,7 @@ PROPS = {
         "one evaluation = one seeded world (algorithm, key) x 100-200 verifications: verifier configuration (offset, max iat age, max auth age, nonce, acr) and claims (iss, sub, aud, azp, exp, iat, auth_time, nonce, acr, at_hash, wrong key) drawn per case, the simulated clock advanced to the instant of verification. "
         "The time axis is decided by the simulator; the claim dimensions are seeded generation. non-trivial = acceptances, rejections and boundary placements all occurred",
         {"runs": 20, "wall": 90}, {"runs": 6000, "wall": 1200},
-        {"quick": {"_runs": 300, "accepted": 5000, "rejected": 20000, "on-a-time-boundary": 5000, "remote-key-set-worlds": 60, "rejected-while-jwks-endpoint-was-down": 20}, "thorough": {"_runs": 20000}},
+        {"quick": {"_runs": 300, "accepted": 5000, "rejected": 20000, "on-a-time-boundary": 5000, "remote-key-set-worlds": 60, "rejected-while-jwks-endpoint-was-down": 20, "download-and-rotation-in-one-second": 500}, "thorough": {"_runs": 20000}},
         "Seeded exploration; accept implies every conjunct of OIDC Core 3.1.3.7 holds at the simulated instant, every conjunct holding with more than 2 s margin implies acceptance with unchanged claims; inside the band either answer is admissible.",
         "DESIGN.md section 4 C01"),
     "C20": dict(flow(
